@@ -777,13 +777,17 @@ def c08_boundary(L, rnd, tier):
     unit = sorted(k for k in L.bylen if 1 <= k <= 11)
     big = max(unit)
 
+    def short(k):
+        # the pool line of that length with the shortest text (apirun reads a call's text from one input line of bounded length)
+        return min(L.bylen[k], key=lambda x: len(L.text[x]))
+
     def build(total):
         keys, left = [], total
         while left > big + 11:
-            keys.append(L.bylen[big][0]); left -= big
+            keys.append(short(big)); left -= big
         while left > 0:
             k = max(u for u in unit if u <= left)
-            keys.append(L.bylen[k][0]); left -= k
+            keys.append(short(k)); left -= k
         return keys
 
     span = 25 if tier == "thorough" else 8
@@ -809,10 +813,12 @@ def c08_boundary(L, rnd, tier):
                         # jump over the body: the code starts with the body, so append "mov rax, v ; ret" and execute only when the body is nops
                         pass
                     out.append(sc)
-    # many growth steps: programs ending around the 11th, 12th, 22nd (thorough: also 44th) multiple of the quantum
-    for mult in ((11, 12, 22, 44) if tier == "thorough" else (11, 22)):
+    # many growth steps: programs ending around the 11th, 22nd (thorough: also 12th, 40th) multiple of the quantum
+    for mult in ((11, 12, 22, 40) if tier == "thorough" else (11, 22)):      # (the caller-buffer mirror holds 257 952 bytes)
         for d in (-1, 21):
             for mode in ("plain", "fit", "count"):
+                if mode == "fit" and mult > 22:
+                    continue      # padded to 16-byte chunks the program would not fit the caller-buffer mirror
                 sc = Script("C08-m%d" % n); n += 1
                 sc.create(1, "int", 0)
                 sc.mirror(1)
